@@ -464,7 +464,8 @@ fn main() {
         "extract" => {
             let seed: u64 = args[2].parse().unwrap();
             let n: usize = args[3].parse().unwrap();
-            extract::run(seed, n, &mut out);
+            let only_mecab = args.get(4).map(|x| x == "mecab").unwrap_or(false);
+            extract::run(seed, n, only_mecab, &mut out);
         }
         "train" => match args[2].as_str() {
             "replay" => trainer::replay(&mut out),
